@@ -1044,3 +1044,8 @@ Example size_ok_example :
   size_ok 1 5 3 (4, 0) = true /\ size_ok 1 5 5 (4, 0) = false /\ size_ok 0 7 7 (7, 0) = true /\
   size_ok 2 6 3 (6, 3) = true /\ size_ok 2 6 3 (6, 4) = false /\ size_ok 3 0 4 (9, 4) = true.
 Proof. repeat split; reflexivity. Qed.
+
+(* bulk entry points (append / extend / +=) are folds of add *)
+Lemma ginv_bulk cfg l a : cfg_ok cfg -> GInv cfg a -> Forall (sol_ok cfg) l ->
+  exists a', ga_fold true cfg a l = Some a' /\ GInv cfg a'.
+Proof. intros C G F. exact (ginv_fold cfg C l a G F). Qed.
